@@ -110,6 +110,9 @@ def probes():
     b = B('double-overflow')
     out.append(b.done([b.let('a#', lit(D, 1e308)), b.let('a#', bin_(3, b.V('a#'), int_lit(10))),
                        P(lit(STR, 'after'))]))
+    b = B('read-fraction-into-integer')
+    out.append(b.done([s_data(['2.5', '1E3']), s_read([[1, b.v('a%')]]), P(b.V('a%')),
+                       s_read([[1, b.v('b&')]]), P(b.V('b&'))]))
     # ---- host exceptions in place of run-time errors (C07's D17)
     b = B('pow-negative-base-fraction')
     out.append(b.done([b.let('a#', un(1, lit(D, 8.0))), b.let('b#', lit(D, 0.5)),
